@@ -26,6 +26,8 @@ func corpus(r *h.Run) {
 	// known findings first (D27: creation below a missing parent differs between the back ends)
 	add(base, c1("touch", "e.txt/a"))
 	add(base, Call{Op: "write", P: "e.txt/a", Data: "x"})
+	add(base, c1("createfile", "e.txt/a"))
+	add(base, c1("openfile", "e.txt/a"))
 
 	// D12 / D28: a directory copied or moved into itself
 	for _, op := range []string{"copy", "move", "copytodir"} {
@@ -51,6 +53,18 @@ func corpus(r *h.Run) {
 	add(Dump{f("a/b/c/b/e.txt", "one"), f("a/b/c/b/c/b/e.txt", "two")}, c2("copy", "a/b/c/b", "a"), c1("read", "a/b/c/b/e.txt"))
 	add(Dump{f("a/b/c/b/e.txt", "one"), f("a/b/c/b/c/b/e.txt", "two")}, c2("move", "a/b/c/b", "a"), c1("read", "a/b/c/b/e.txt"))
 	add(Dump{f("a/b/a/e.txt", "one"), d("a/b/a/b/a")}, c2("copytodir", "a/b/a", "/"), c1("tree", "/"))
+	// the source is already where the call would put it: d/f into d, d onto its own place, a directory into its parent
+	for _, op := range []string{"move", "movebetween", "copy", "copytodir", "copytofile"} {
+		for _, pq := range [][2]string{{"a/e.txt", "a"}, {"a/e.txt", "a/"}, {"a/e.txt", "a/e.txt"}, {"a/b", "a"}, {"a/b/", "a"}, {"c", "/"}, {"d", "/"}, {"a/b/c", "a/b"}} {
+			add(base, c2(op, pq[0], pq[1]), c1("read", "a/e.txt"), c1("read", "a/b/c"))
+		}
+	}
+	// MoveBetweenFS on one file system: the destination-shape table
+	for _, src := range []string{"c", "a/e.txt", "a", "a/b", "d"} {
+		for _, dst := range []string{"e.txt", "e.txt/", "d", "d/", "b", "b/c", ".h/a/b", "a/b", "a/d"} {
+			add(base, c2("movebetween", src, dst))
+		}
+	}
 	// D24 / D25: move into an existing directory (empty, non-empty, containing the name)
 	add(base, c2("move", "c", "d"))
 	add(base, c2("move", "c", "a"))
@@ -83,9 +97,9 @@ func corpus(r *h.Run) {
 		}
 	}
 	// single-path calls on every shape of argument
-	for _, op := range []string{"mkdir", "touch", "read", "ls", "lsrec", "tree", "subdirs", "findall", "exists", "isfile", "isdir", "isempty", "size", "hash", "rm", "clean", "relpath", "write"} {
+	for _, op := range []string{"mkdir", "touch", "read", "ls", "lsrec", "tree", "subdirs", "findall", "exists", "isfile", "isdir", "isempty", "size", "hash", "rm", "clean", "relpath", "write", "createfile", "openfile"} {
 		for _, p := range []string{"", "a", "a/", "c", "d", "d/", "e.txt", "e.txt/", "a/b/c", ".h/a", ".h/a/", "a/.h", "/"} {
-			if p == "/" && (op == "rm" || op == "mkdir" || op == "touch" || op == "write" || op == "read" || op == "size" || op == "hash") {
+			if p == "/" && (op == "rm" || op == "mkdir" || op == "touch" || op == "write" || op == "read" || op == "size" || op == "hash" || op == "createfile" || op == "openfile") {
 				continue
 			}
 			c := Call{Op: op, P: p, Flag: true}
@@ -113,7 +127,7 @@ func corpus(r *h.Run) {
 		runProgram(r, Program{Init: init, Calls: calls, Loose: true}, false, false)
 	}
 	conf := Dump{f("a/b", "file"), f("c", "x"), f("d/a/b", "y"), d("d/c")}
-	for _, c := range []Call{c1("mkdir", "a/b/c"), c1("mkdir", "c"), c1("touch", "a/b/c"), c1("touch", "c/"), {Op: "write", P: "a/b/c", Data: "z"},
+	for _, c := range []Call{c1("mkdir", "a/b/c"), c1("mkdir", "c"), c1("touch", "a/b/c"), c1("createfile", "a/b/c"), c1("openfile", "a/b/c"), c1("touch", "c/"), {Op: "write", P: "a/b/c", Data: "z"},
 		{Op: "write", P: "d", Data: "z"}, {Op: "write", P: "c/", Data: "z"}, c1("read", "d"), c1("ls", "c"), c1("clean", "c"), c1("rm", "c/"), c1("lsrec", "c"),
 		c2("copy", "d", "c"), c2("copy", "c", "d/c"), c2("copy", "d", "/"), c2("copy", "a", "d"), c2("copy", "c", "a/b/c"), c2("copy", "d", "a/b/c"),
 		c2("move", "d", "c"), c2("move", "c", "d/c"), c2("move", "a", "d"), c2("move", "c", "a/b/c"), c2("move", "d", "a/b/c"), c2("move", "c", "d/a/b/"),
@@ -204,7 +218,7 @@ func (g *gen) arg(comps []string) string {
 	return s
 }
 
-var ops1 = []string{"mkdir", "touch", "write", "read", "ls", "lsrec", "tree", "subdirs", "findall", "exists", "isfile", "isdir", "isempty", "size", "hash", "rm", "clean", "relpath"}
+var ops1 = []string{"createfile", "openfile", "mkdir", "touch", "write", "read", "ls", "lsrec", "tree", "subdirs", "findall", "exists", "isfile", "isdir", "isempty", "size", "hash", "rm", "clean", "relpath"}
 var opsRootOK = map[string]bool{"ls": true, "lsrec": true, "tree": true, "subdirs": true, "findall": true, "exists": true, "isdir": true, "isempty": true, "clean": true, "relpath": true, "isfile": true}
 
 func (g *gen) call(cur Dump) Call {
@@ -212,7 +226,7 @@ func (g *gen) call(cur Dump) Call {
 	k := rng.Intn(100)
 	switch {
 	case k < 38: // copy / move family with a chosen relation between source and destination
-		op := []string{"copy", "copy", "move", "move", "copytofile", "copytodir"}[rng.Intn(6)]
+		op := []string{"copy", "copy", "move", "move", "copytofile", "copytodir", "movebetween"}[rng.Intn(7)]
 		src := g.pathIn(cur)
 		var dst []string
 		switch rng.Intn(9) {
@@ -394,13 +408,13 @@ func predict(cur Dump, c Call) Dump {
 	switch c.Op {
 	case "mkdir":
 		addDirs(a.comps)
-	case "touch", "write":
+	case "touch", "write", "createfile", "openfile":
 		if _, ok := out.Lookup(a.path()); !ok && out.kind(a.comps[:len(a.comps)-1]) == kDir {
 			out = append(out, f(a.path(), c.Data))
 		}
 	case "rm":
 		rm(a.comps)
-	case "copy", "move", "copytodir", "copytofile":
+	case "copy", "move", "copytodir", "copytofile", "movebetween":
 		b := parseArg(c.Q)
 		if e, ok := out.Lookup(a.path()); ok && !b.empty {
 			t := b.comps
@@ -414,7 +428,7 @@ func predict(cur Dump, c Call) Dump {
 				if _, has := out.Lookup(strings.Join(t, "/")); !has {
 					out = append(out, Entry{Path: strings.Join(t, "/"), Dir: e.Dir, Data: e.Data})
 				}
-				if c.Op == "move" {
+				if c.Op == "move" || c.Op == "movebetween" {
 					rm(a.comps)
 				}
 			}
